@@ -9,19 +9,41 @@ open Prog Grammar Frag
 
 set_option linter.unusedSimpArgs false
 
-variable (fl : Bool) (d : Nat) (loc : List Bool) (cps : List Nat)
+variable (fl : Bool) (d : Nat) (loc : List Bool) (cps : CpStack) (cur : List SyntaxKind) (ps : List (SyntaxKind × List SyntaxKind))
 
 /-! ### template arguments -/
+
+/-- push `k` unless the optional construct was empty -/
+def optPush (k : SyntaxKind) (cur : List SyntaxKind) : Bool → List SyntaxKind
+  | true => cur
+  | false => k :: cur
+
+def Frag.ArgVal.nk : ArgVal → SyntaxKind
+  | .pos _ => .PositionalArgValue
+  | .named _ _ => .NamedArgValue
+
+def Frag.BodyItem.nk : BodyItem → SyntaxKind
+  | .fieldDef _ _ _ => .FieldDef
+  | .letField _ _ => .FieldLet
+  | .defvar _ => .Defvar
+  | .assert_ _ _ => .Assert
+  | .dump _ => .Dump
+
+/-- a type node is what the `type` accessors of declarations cast -/
+theorem good_decl2 (k : SyntaxKind) (hk : k = .TemplateArgDecl ∨ k = .FieldDef) (t : Ty) :
+    goodNode k (List.reverse [.Identifier, t.nk]) = true ∧ goodNode k (List.reverse [.Value, .Identifier, t.nk]) = true := by
+  rcases hk with rfl | rfl <;> cases t <;> exact ⟨rfl, rfl⟩
 
 theorem valFollowOk_of_mem {k : TokenKind} {S : List TokenKind} (h : S.contains k = true)
     (hS : S.all valFollowOk = true) : valFollowOk k = true := prop_of_mem valFollowOk h hS
 
 theorem c_targ (a : TArg) (X : List TokenKind) (hX : [TokenKind.Comma, .Greater].contains (X.headD .Eof) = true)
     (n : Nat) (hn : 64 * a.render.length + 448 ≤ n) :
-    ax n (call .template_arg_decl) ⟨a.render ++ X, fl, d, loc, cps, true⟩ = some ⟨X, a.dflt.isSome, d, loc, cps, true⟩ := by
+    ax n (call .template_arg_decl) ⟨a.render ++ X, fl, d, loc, cps, true, cur, ps⟩ = some ⟨X, a.dflt.isSome, d, loc, cps, true, SyntaxKind.TemplateArgDecl :: cur, ps⟩ := by
   obtain ⟨⟨t, ht⟩, dflt⟩ := a
   have hv := valFollowOk_of_mem hX (by decide)
   have hE : (X.headD .Eof == .Equal) = false := ne_of_mem hX (by decide)
+  obtain ⟨hg1, hg2⟩ := good_decl2 .TemplateArgDecl (Or.inl rfl) t
   cases dflt with
   | none =>
     simp only [TArg.render, DTy.render, optInit, List.length_cons, List.length_append, List.length_nil] at hn ⊢
@@ -40,27 +62,27 @@ theorem targ_head (a : TArg) (Z : List TokenKind) :
 
 /-- the loop of `delimited('<', '>', ',', template_arg_decl)` -/
 theorem c_targs_loop (as : List TArg) (X : List TokenKind) :
-    ∀ (a : TArg) (n : Nat) (fl : Bool), 64 * (a.render.length + (targsTail as).length) + 512 ≤ n →
+    ∀ (a : TArg) (n : Nat) (fl : Bool) (cur : List SyntaxKind), 64 * (a.render.length + (targsTail as).length) + 512 ≤ n →
       ax n (loop (ifAt [.Greater, .Eof] (retB false) (seq (call .template_arg_decl) (eatIf .Comma))) nop)
-        ⟨a.render ++ (targsTail as ++ TokenKind.Greater :: X), fl, d, loc, cps, true⟩ =
-        some ⟨TokenKind.Greater :: X, false, d, loc, cps, true⟩ := by
+        ⟨a.render ++ (targsTail as ++ TokenKind.Greater :: X), fl, d, loc, cps, true, cur, ps⟩ =
+        some ⟨TokenKind.Greater :: X, false, d, loc, cps, true, pushAll (List.replicate (as.length + 1) SyntaxKind.TemplateArgDecl) cur, ps⟩ := by
   induction as with
   | nil =>
-    intro a n fl hn
+    intro a n fl cur hn
     simp only [targsTail, List.length_append, List.length_nil] at hn
     obtain ⟨m, rfl⟩ : ∃ m, n = m + 20 := ⟨n - 20, by omega⟩
     have hh : ∀ Z, [TokenKind.Greater, .Eof].contains ((a.render ++ Z).headD .Eof) = false :=
       fun Z => notin_of_mem (targ_head a Z) (by decide)
     rw [ax_loop]
-    ax_eval [targsTail, c_targ]
+    ax_eval [targsTail, c_targ, List.length_nil]
   | cons a2 as ih =>
-    intro a n fl hn
+    intro a n fl cur hn
     simp only [targsTail, List.length_append, List.length_cons] at hn
     obtain ⟨m, rfl⟩ : ∃ m, n = m + 20 := ⟨n - 20, by omega⟩
     have hh : ∀ Z, [TokenKind.Greater, .Eof].contains ((a.render ++ Z).headD .Eof) = false :=
       fun Z => notin_of_mem (targ_head a Z) (by decide)
     rw [ax_loop]
-    ax_eval [targsTail, c_targ, ih]
+    ax_eval [targsTail, c_targ, ih, List.length_cons]
 
 def optFlag (fl : Bool) : Bool → Bool
   | true => fl
@@ -68,16 +90,19 @@ def optFlag (fl : Bool) : Bool → Bool
 
 theorem c_opt_targs (ta : List TArg) (X : List TokenKind) (hX : (X.headD .Eof == .Less) = false)
     (n : Nat) (hn : 64 * (targsRender ta).length + 576 ≤ n) :
-    ax n (call .opt_template_arg_list) ⟨targsRender ta ++ X, fl, d, loc, cps, true⟩ =
-      some ⟨X, optFlag fl ta.isEmpty, d, loc, cps, true⟩ := by
+    ax n (call .opt_template_arg_list) ⟨targsRender ta ++ X, fl, d, loc, cps, true, cur, ps⟩ =
+      some ⟨X, optFlag fl ta.isEmpty, d, loc, cps, true, optPush .TemplateArgList cur ta.isEmpty, ps⟩ := by
   cases ta with
   | nil =>
     obtain ⟨m, rfl⟩ : ∃ m, n = m + 20 := ⟨n - 20, by omega⟩
-    ax_eval [ax_call, targsRender, optFlag, List.isEmpty_nil, hX]
+    ax_eval [ax_call, targsRender, optFlag, optPush, List.isEmpty_nil, hX]
   | cons a as =>
     simp only [targsRender, List.length_cons, List.length_append, List.length_nil] at hn
     obtain ⟨m, rfl⟩ : ∃ m, n = m + 40 := ⟨n - 40, by omega⟩
-    ax_eval [ax_call, targsRender, optFlag, List.isEmpty_cons, c_targs_loop _ _ _ as X]
+    have hg : goodNode .TemplateArgList (pushAll (List.replicate as.length .TemplateArgDecl) [.TemplateArgDecl]).reverse = true :=
+      good_all_push .TemplateArgList ⟨"args", .all, [.TemplateArgDecl]⟩ rfl rfl (List.replicate (as.length + 1) .TemplateArgDecl)
+        (by intro x hx; rw [List.eq_of_mem_replicate hx]; rfl)
+    ax_eval [ax_call, targsRender, optFlag, optPush, List.isEmpty_cons, c_targs_loop _ _ _ _ as X]
 
 /-! ### parent classes -/
 
@@ -127,10 +152,10 @@ theorem arg_length_pos (a : ArgVal) : 1 ≤ a.render.length := by
   | named n v => simp only [ArgVal.render, List.length_append]; have := val_length_pos n; omega
 
 theorem c_arg_value (seen : Bool) (a : ArgVal) (hok : a.isNamed = true ∨ seen = false) (X : List TokenKind)
-    (hX : [TokenKind.Comma, .Greater].contains (X.headD .Eof) = true) (h0 : cps.contains 0 = false)
+    (hX : [TokenKind.Comma, .Greater].contains (X.headD .Eof) = true) (h0 : hasTop cps = false)
     (n : Nat) (hn : 64 * a.render.length + 512 ≤ n) :
-    ax n (call .arg_value) ⟨a.render ++ X, fl, d, seen :: loc, cps, true⟩ =
-      some ⟨X, a.isNamed, d, (seen || a.isNamed) :: loc, cps, true⟩ := by
+    ax n (call .arg_value) ⟨a.render ++ X, fl, d, seen :: loc, cps, true, cur, ps⟩ =
+      some ⟨X, a.isNamed, d, (seen || a.isNamed) :: loc, cps, true, a.nk :: cur, ps⟩ := by
   have hv := valFollowOk_of_mem hX (by decide)
   have hE : (X.headD .Eof == .Equal) = false := ne_of_mem hX (by decide)
   cases a with
@@ -139,43 +164,43 @@ theorem c_arg_value (seen : Bool) (a : ArgVal) (hok : a.isNamed = true ∨ seen 
     subst hs
     simp only [ArgVal.render] at hn ⊢
     obtain ⟨m, rfl⟩ : ∃ m, n = m + 40 := ⟨n - 40, by omega⟩
-    ax_eval [ax_call (f := .arg_value), c_value, ArgVal.isNamed, Bool.or_false]
+    ax_eval [ax_call (f := .arg_value), c_value, ArgVal.isNamed, ArgVal.nk, Bool.or_false]
   | named nm v =>
     simp only [ArgVal.render, List.length_append, List.length_cons] at hn ⊢
     obtain ⟨m, rfl⟩ : ∃ m, n = m + 40 := ⟨n - 40, by omega⟩
-    ax_eval [ax_call (f := .arg_value), c_value, ArgVal.isNamed, Bool.or_true]
+    ax_eval [ax_call (f := .arg_value), c_value, ArgVal.isNamed, ArgVal.nk, Bool.or_true]
 
 /-- the loop of `arg_value_list` -/
-theorem c_args_loop (as : List ArgVal) (X : List TokenKind) (h0 : cps.contains 0 = false) :
-    ∀ (a : ArgVal) (seen : Bool) (n : Nat) (fl : Bool), okAfter seen (a :: as) = true →
+theorem c_args_loop (as : List ArgVal) (X : List TokenKind) (h0 : hasTop cps = false) :
+    ∀ (a : ArgVal) (seen : Bool) (n : Nat) (fl : Bool) (cur : List SyntaxKind), okAfter seen (a :: as) = true →
       64 * (a.render.length + (argsTail as).length) + 576 ≤ n →
       ax n (loop (ifAt [.Eof] (retB false) (seq (call .arg_value) (eatIf .Comma))) nop)
-        ⟨a.render ++ (argsTail as ++ TokenKind.Greater :: X), fl, d, seen :: loc, cps, true⟩ =
-        some ⟨TokenKind.Greater :: X, false, d, seenAfter seen (a :: as) :: loc, cps, true⟩ := by
+        ⟨a.render ++ (argsTail as ++ TokenKind.Greater :: X), fl, d, seen :: loc, cps, true, cur, ps⟩ =
+        some ⟨TokenKind.Greater :: X, false, d, seenAfter seen (a :: as) :: loc, cps, true, pushAll ((a :: as).map ArgVal.nk) cur, ps⟩ := by
   induction as with
   | nil =>
-    intro a seen n fl hok hn
+    intro a seen n fl cur hok hn
     simp only [argsTail, List.length_nil] at hn
     obtain ⟨m, rfl⟩ : ∃ m, n = m + 20 := ⟨n - 20, by omega⟩
     have hh : ∀ Z, [TokenKind.Eof].contains ((a.render ++ Z).headD .Eof) = false :=
       fun Z => notin_of_mem (arg_head a Z) (by decide)
     have hok' := (okAfter_cons hok).1
     rw [ax_loop]
-    ax_eval [argsTail, c_arg_value, seenAfter]
+    ax_eval [argsTail, c_arg_value, seenAfter, List.map_cons, List.map_nil]
   | cons b bs ih =>
-    intro a seen n fl hok hn
+    intro a seen n fl cur hok hn
     simp only [argsTail, List.length_cons, List.length_append] at hn
     obtain ⟨m, rfl⟩ : ∃ m, n = m + 20 := ⟨n - 20, by omega⟩
     have hh : ∀ Z, [TokenKind.Eof].contains ((a.render ++ Z).headD .Eof) = false :=
       fun Z => notin_of_mem (arg_head a Z) (by decide)
     obtain ⟨hok1, hok2⟩ := okAfter_cons hok
     rw [ax_loop]
-    ax_eval [argsTail, c_arg_value, ih, seenAfter]
+    ax_eval [argsTail, c_arg_value, ih, seenAfter, List.map_cons]
 
 theorem c_arg_value_list (l : List ArgVal) (hok : okAfter false l = true) (X : List TokenKind)
     (n : Nat) (hn : 64 * (argsRender l).length + 640 ≤ n) :
-    ax n (call .arg_value_list) ⟨argsRender l ++ TokenKind.Greater :: X, fl, d, loc, cps, true⟩ =
-      some ⟨TokenKind.Greater :: X, optFlag fl l.isEmpty, d, loc, cps, true⟩ := by
+    ax n (call .arg_value_list) ⟨argsRender l ++ TokenKind.Greater :: X, fl, d, loc, cps, true, cur, ps⟩ =
+      some ⟨TokenKind.Greater :: X, optFlag fl l.isEmpty, d, loc, cps, true, SyntaxKind.ArgValueList :: cur, ps⟩ := by
   cases l with
   | nil =>
     obtain ⟨m, rfl⟩ : ∃ m, n = m + 20 := ⟨n - 20, by omega⟩
@@ -185,8 +210,14 @@ theorem c_arg_value_list (l : List ArgVal) (hok : okAfter false l = true) (X : L
     obtain ⟨m, rfl⟩ : ∃ m, n = m + 20 := ⟨n - 20, by omega⟩
     have hh : ∀ Z, Tables.valueStart.contains ((a.render ++ Z).headD .Eof) = true :=
       fun Z => in_of_mem (arg_head a Z) (by decide)
-    ax_eval [ax_call (f := .arg_value_list), argsRender, optFlag, List.isEmpty_cons,
-      c_args_loop _ loc (cpsUp cps) as X (cpsUp_contains_zero cps) a false]
+    have hg : goodNode .ArgValueList (pushAll (List.map ArgVal.nk as) [a.nk]).reverse = true :=
+      good_all_push .ArgValueList ⟨"arg_values", .all, [.PositionalArgValue, .NamedArgValue]⟩ rfl rfl
+        ((a :: as).map ArgVal.nk) (by
+          intro x hx
+          obtain ⟨y, _, rfl⟩ := List.mem_map.mp hx
+          cases y <;> rfl)
+    ax_eval [ax_call (f := .arg_value_list), argsRender, optFlag, List.isEmpty_cons, List.map_cons,
+      c_args_loop _ loc (cpsUp cps) _ as X (hasTop_cpsUp cps) a false]
 
 def classRefFlag : Option ArgList → Bool
   | none => false
@@ -194,7 +225,7 @@ def classRefFlag : Option ArgList → Bool
 
 theorem c_class_ref (r : ClassRef) (X : List TokenKind) (hL : (X.headD .Eof == .Less) = false)
     (n : Nat) (hn : 64 * r.render.length + 704 ≤ n) :
-    ax n (call .class_ref) ⟨r.render ++ X, fl, d, loc, cps, true⟩ = some ⟨X, classRefFlag r.args, d, loc, cps, true⟩ := by
+    ax n (call .class_ref) ⟨r.render ++ X, fl, d, loc, cps, true, cur, ps⟩ = some ⟨X, classRefFlag r.args, d, loc, cps, true, SyntaxKind.ClassRef :: cur, ps⟩ := by
   obtain ⟨args⟩ := r
   cases args with
   | none =>
@@ -212,31 +243,31 @@ theorem classRef_length_pos (r : ClassRef) : 1 ≤ r.render.length := by
 
 theorem c_parents_loop (rs : List ClassRef) (X : List TokenKind)
     (hX : [TokenKind.Semi, .LBrace].contains (X.headD .Eof) = true) :
-    ∀ (r : ClassRef) (n : Nat) (fl : Bool), 64 * (r.render.length + (parentsTail rs).length) + 768 ≤ n →
+    ∀ (r : ClassRef) (n : Nat) (fl : Bool) (cur : List SyntaxKind), 64 * (r.render.length + (parentsTail rs).length) + 768 ≤ n →
       ax n (loop (ifAt [.Eof] (retB false) (seq (call .class_ref) (eatIf .Comma))) nop)
-        ⟨r.render ++ (parentsTail rs ++ X), fl, d, loc, cps, true⟩ = some ⟨X, false, d, loc, cps, true⟩ := by
+        ⟨r.render ++ (parentsTail rs ++ X), fl, d, loc, cps, true, cur, ps⟩ = some ⟨X, false, d, loc, cps, true, pushAll (List.replicate (rs.length + 1) SyntaxKind.ClassRef) cur, ps⟩ := by
   have hL : (X.headD .Eof == .Less) = false := ne_of_mem hX (by decide)
   have hC : (X.headD .Eof == .Comma) = false := ne_of_mem hX (by decide)
   induction rs with
   | nil =>
-    intro r n fl hn
+    intro r n fl cur hn
     simp only [parentsTail, List.length_nil] at hn
     obtain ⟨m, rfl⟩ : ∃ m, n = m + 20 := ⟨n - 20, by omega⟩
     have hh : ∀ Z, [TokenKind.Eof].contains ((r.render ++ Z).headD .Eof) = false := fun Z => rfl
     rw [ax_loop]
-    ax_eval [parentsTail, c_class_ref]
+    ax_eval [parentsTail, c_class_ref, List.length_nil]
   | cons q qs ih =>
-    intro r n fl hn
+    intro r n fl cur hn
     simp only [parentsTail, List.length_cons, List.length_append] at hn
     obtain ⟨m, rfl⟩ : ∃ m, n = m + 20 := ⟨n - 20, by omega⟩
     have hh : ∀ Z, [TokenKind.Eof].contains ((r.render ++ Z).headD .Eof) = false := fun Z => rfl
     rw [ax_loop]
-    ax_eval [parentsTail, c_class_ref, ih]
+    ax_eval [parentsTail, c_class_ref, ih, List.length_cons]
 
 theorem c_parent_class_list (p : List ClassRef) (X : List TokenKind)
     (hX : [TokenKind.Semi, .LBrace].contains (X.headD .Eof) = true)
     (n : Nat) (hn : 64 * (parentsRender p).length + 832 ≤ n) :
-    ax n (call .parent_class_list) ⟨parentsRender p ++ X, fl, d, loc, cps, true⟩ = some ⟨X, false, d, loc, cps, true⟩ := by
+    ax n (call .parent_class_list) ⟨parentsRender p ++ X, fl, d, loc, cps, true, cur, ps⟩ = some ⟨X, false, d, loc, cps, true, SyntaxKind.ParentClassList :: cur, ps⟩ := by
   cases p with
   | nil =>
     have hC : (X.headD .Eof == .Colon) = false := ne_of_mem hX (by decide)
@@ -245,7 +276,10 @@ theorem c_parent_class_list (p : List ClassRef) (X : List TokenKind)
   | cons r rs =>
     simp only [parentsRender, List.length_cons, List.length_append] at hn
     obtain ⟨m, rfl⟩ : ∃ m, n = m + 20 := ⟨n - 20, by omega⟩
-    ax_eval [ax_call, parentsRender, c_parents_loop _ _ _ rs X hX]
+    have hg : goodNode .ParentClassList (pushAll (List.replicate rs.length .ClassRef) [.ClassRef]).reverse = true :=
+      good_all_push .ParentClassList ⟨"classes", .all, [.ClassRef]⟩ rfl rfl (List.replicate (rs.length + 1) .ClassRef)
+        (by intro x hx; rw [List.eq_of_mem_replicate hx]; rfl)
+    ax_eval [ax_call, parentsRender, c_parents_loop _ _ _ _ rs X hX]
 
 /-! ### body items -/
 
@@ -255,10 +289,11 @@ theorem fty_head (t : FTy) (Z : List TokenKind) :
 
 theorem c_field_def (f : Bool) (t : FTy) (i : Option Val) (Y : List TokenKind)
     (n : Nat) (hn : 64 * (BodyItem.fieldDef f t i).render.length + 448 ≤ n) :
-    ax n (call .field_def) ⟨(BodyItem.fieldDef f t i).render ++ Y, fl, d, loc, cps, true⟩ =
-      some ⟨Y, i.isSome, d, loc, cps, true⟩ := by
+    ax n (call .field_def) ⟨(BodyItem.fieldDef f t i).render ++ Y, fl, d, loc, cps, true, cur, ps⟩ =
+      some ⟨Y, i.isSome, d, loc, cps, true, SyntaxKind.FieldDef :: cur, ps⟩ := by
   have hF : ∀ Z, ((t.toTy.render ++ Z).headD .Eof == TokenKind.Field) = false :=
     fun Z => ne_of_mem (ty_head t.toTy Z) (by decide)
+  obtain ⟨hg1, hg2⟩ := good_decl2 .FieldDef (Or.inr rfl) t.toTy
   cases f <;> cases i <;>
   · simp only [BodyItem.render, FTy.render, optInit, List.length_cons, List.length_append, List.length_nil,
       if_true, if_false, Bool.false_eq_true] at hn ⊢
@@ -266,7 +301,7 @@ theorem c_field_def (f : Bool) (t : FTy) (i : Option Val) (Y : List TokenKind)
     ax_eval [ax_call (f := .field_def), c_type, c_identifier, c_value, Option.isSome]
 
 theorem c_body_item (i : BodyItem) (Y : List TokenKind) (n : Nat) (hn : 64 * i.render.length + 512 ≤ n) :
-    ax n (call .body_item) ⟨i.render ++ Y, fl, d, loc, cps, true⟩ = some ⟨Y, true, d, loc, cps, true⟩ := by
+    ax n (call .body_item) ⟨i.render ++ Y, fl, d, loc, cps, true, cur, ps⟩ = some ⟨Y, true, d, loc, cps, true, i.nk :: cur, ps⟩ := by
   cases i with
   | fieldDef f t i =>
     have hh : ∀ Z, (Tables.typeFirst ++ [TokenKind.Field]).contains ((t.toTy.render ++ Z).headD .Eof) = true :=
@@ -280,31 +315,31 @@ theorem c_body_item (i : BodyItem) (Y : List TokenKind) (n : Nat) (hn : 64 * i.r
       · simp only [BodyItem.render, FTy.render, Bool.false_eq_true, if_false, List.nil_append, List.append_assoc]
         exact hh _
       · rfl
-    rw [ax_ifAt_pos _ _ _ _ _ _ _ _ _ h1]
-    ax_eval [c_field_def]
+    rw [ax_ifAt_pos _ _ _ _ _ _ _ _ _ _ _ h1]
+    ax_eval [c_field_def, BodyItem.nk]
   | letField r v =>
     cases r with
     | none =>
       simp only [BodyItem.render, optRange, List.length_cons, List.length_append, List.length_nil] at hn ⊢
       obtain ⟨m, rfl⟩ : ∃ m, n = m + 40 := ⟨n - 40, by omega⟩
-      ax_eval [ax_call (f := .body_item), ax_call (f := .field_let), bodyItemArms, c_identifier, c_value]
+      ax_eval [ax_call (f := .body_item), ax_call (f := .field_let), bodyItemArms, BodyItem.nk, c_identifier, c_value]
     | some r =>
       simp only [BodyItem.render, optRange, List.length_cons, List.length_append, List.length_nil] at hn ⊢
       obtain ⟨m, rfl⟩ : ∃ m, n = m + 40 := ⟨n - 40, by omega⟩
-      ax_eval [ax_call (f := .body_item), ax_call (f := .field_let), bodyItemArms, c_identifier, c_value,
+      ax_eval [ax_call (f := .body_item), ax_call (f := .field_let), bodyItemArms, BodyItem.nk, c_identifier, c_value,
         c_range_list]
   | defvar v =>
     simp only [BodyItem.render, List.length_cons, List.length_append, List.length_nil] at hn ⊢
     obtain ⟨m, rfl⟩ : ∃ m, n = m + 40 := ⟨n - 40, by omega⟩
-    ax_eval [ax_call (f := .body_item), ax_call (f := .defvar), bodyItemArms, c_identifier, c_value]
+    ax_eval [ax_call (f := .body_item), ax_call (f := .defvar), bodyItemArms, BodyItem.nk, c_identifier, c_value]
   | assert_ c msg =>
     simp only [BodyItem.render, List.length_cons, List.length_append, List.length_nil] at hn ⊢
     obtain ⟨m, rfl⟩ : ∃ m, n = m + 40 := ⟨n - 40, by omega⟩
-    ax_eval [ax_call (f := .body_item), ax_call (f := .assert_), bodyItemArms, c_value]
+    ax_eval [ax_call (f := .body_item), ax_call (f := .assert_), bodyItemArms, BodyItem.nk, c_value]
   | dump v =>
     simp only [BodyItem.render, List.length_cons, List.length_append, List.length_nil] at hn ⊢
     obtain ⟨m, rfl⟩ : ∃ m, n = m + 40 := ⟨n - 40, by omega⟩
-    ax_eval [ax_call (f := .body_item), ax_call (f := .dump), bodyItemArms, c_value]
+    ax_eval [ax_call (f := .body_item), ax_call (f := .dump), bodyItemArms, BodyItem.nk, c_value]
 
 /-- the tokens a body item can start with -/
 def itemFirst : List TokenKind := Tables.typeFirst ++ [.Field, .Let, .Defvar, .Assert, .Dump]
@@ -322,32 +357,32 @@ theorem item_length_pos (i : BodyItem) : 0 < i.render.length := by
   cases i <;> simp [BodyItem.render] <;> omega
 
 theorem c_items_loop (is : List BodyItem) (X : List TokenKind) :
-    ∀ (n : Nat) (fl : Bool), 64 * (itemsRender is).length + 576 ≤ n →
+    ∀ (n : Nat) (fl : Bool) (cur : List SyntaxKind), 64 * (itemsRender is).length + 576 ≤ n →
       ax n (loop (ifAt [.RBrace, .Eof] (retB false) (call .body_item)) nop)
-        ⟨itemsRender is ++ TokenKind.RBrace :: X, fl, d, loc, cps, true⟩ =
-        some ⟨TokenKind.RBrace :: X, false, d, loc, cps, true⟩ := by
+        ⟨itemsRender is ++ TokenKind.RBrace :: X, fl, d, loc, cps, true, cur, ps⟩ =
+        some ⟨TokenKind.RBrace :: X, false, d, loc, cps, true, pushAll (is.map BodyItem.nk) cur, ps⟩ := by
   induction is with
   | nil =>
-    intro n fl hn
+    intro n fl cur hn
     obtain ⟨m, rfl⟩ : ∃ m, n = m + 20 := ⟨n - 20, by omega⟩
     rw [ax_loop]
-    ax_eval [itemsRender]
+    ax_eval [itemsRender, List.map_nil]
   | cons i is ih =>
-    intro n fl hn
+    intro n fl cur hn
     simp only [itemsRender, List.length_append] at hn
     obtain ⟨m, rfl⟩ : ∃ m, n = m + 20 := ⟨n - 20, by omega⟩
     have hh : ∀ Z, [TokenKind.RBrace, .Eof].contains ((i.render ++ Z).headD .Eof) = false :=
       fun Z => notin_of_mem (item_head i Z) (by decide)
     have hpos := item_length_pos i
     rw [ax_loop]
-    ax_eval [itemsRender, c_body_item, ih]
+    ax_eval [itemsRender, c_body_item, ih, List.map_cons]
 
 def Frag.Body.isSemi : Body → Bool
   | .semi => true
   | .braces _ => false
 
 theorem c_body (b : Body) (X : List TokenKind) (n : Nat) (hn : 64 * b.render.length + 640 ≤ n) :
-    ax n (call .body) ⟨b.render ++ X, fl, d, loc, cps, true⟩ = some ⟨X, b.isSemi, d, loc, cps, true⟩ := by
+    ax n (call .body) ⟨b.render ++ X, fl, d, loc, cps, true, cur, ps⟩ = some ⟨X, b.isSemi, d, loc, cps, true, SyntaxKind.Body :: cur, ps⟩ := by
   cases b with
   | semi =>
     obtain ⟨m, rfl⟩ : ∃ m, n = m + 20 := ⟨n - 20, by omega⟩
@@ -355,7 +390,12 @@ theorem c_body (b : Body) (X : List TokenKind) (n : Nat) (hn : 64 * b.render.len
   | braces is =>
     simp only [Body.render, List.length_cons, List.length_append, List.length_nil] at hn
     obtain ⟨m, rfl⟩ : ∃ m, n = m + 20 := ⟨n - 20, by omega⟩
-    ax_eval [ax_call, Body.render, Body.isSemi, c_items_loop _ _ _ is X]
+    have hg : goodNode .Body (pushAll (List.map BodyItem.nk is) []).reverse = true :=
+      good_all_push .Body ⟨"items", .all, [.FieldDef, .FieldLet, .Defvar, .Assert, .Dump]⟩ rfl rfl _ (by
+        intro x hx
+        obtain ⟨y, _, rfl⟩ := List.mem_map.mp hx
+        cases y <;> rfl)
+    ax_eval [ax_call, Body.render, Body.isSemi, c_items_loop _ _ _ _ is X]
 
 theorem body_head (b : Body) (Z : List TokenKind) :
     [TokenKind.Semi, .LBrace].contains ((b.render ++ Z).headD .Eof) = true := by
@@ -363,7 +403,7 @@ theorem body_head (b : Body) (Z : List TokenKind) :
 
 theorem c_record_body (p : List ClassRef) (b : Body) (X : List TokenKind)
     (n : Nat) (hn : 64 * (recordBodyRender p b).length + 896 ≤ n) :
-    ax n (call .record_body) ⟨recordBodyRender p b ++ X, fl, d, loc, cps, true⟩ = some ⟨X, b.isSemi, d, loc, cps, true⟩ := by
+    ax n (call .record_body) ⟨recordBodyRender p b ++ X, fl, d, loc, cps, true, cur, ps⟩ = some ⟨X, b.isSemi, d, loc, cps, true, SyntaxKind.RecordBody :: cur, ps⟩ := by
   simp only [recordBodyRender, List.length_append] at hn
   obtain ⟨m, rfl⟩ : ∃ m, n = m + 20 := ⟨n - 20, by omega⟩
   have hb := body_head b X
